@@ -1,5 +1,51 @@
 CONFIG = dict(
         level='proof',
-        streams=[dict(harness='c13', driver='c13', shrink_field='changes')],
-        rule='TODO',
+        streams=[dict(harness='c13', driver='c13', shrink_field='changes'),
+                 # thorough tier only: the same harness built with `go build -race`, quick-sized case set; empty in the quick tier
+                 dict(harness='c13race', driver='c13', shrink_field='changes')],
+        rule='change sets given to the real RenameAnalysis.Consume (fabricated object.Change values and cached blobs; hashes are free 20-byte '
+             'inputs): all change lists of length <=4 (thorough <=5) over {add h, delete h, modify} with three hashes whose bytes cross; random '
+             'sets of up to 200 changes over 1..6 hashes in adversarial byte patterns (tiny blobs: stage 1 only); families of similar text and '
+             'binary blobs of 30..300 bytes with thresholds -1..250 and timeouts 1 ns .. 1 h (stage 2, both winners, timeout cuts); one-line blobs '
+             'on the exact boundaries of sizesAreClose and of the 32-byte minimum; 55..75 candidates with the only similar one around rank 50 '
+             '(candidate cap); duplicate paths / a path both added and deleted / malformed empty changes; one set (thorough: 12) with more than '
+             '1000 leftovers (cap 1); GOMAXPROCS 1 and 16 with 0..2 goroutines spinning on runtime.Gosched. Non-trivial = at least one addition '
+             'and one deletion; distinct = distinct threshold, timeout, scheduling parameters, blob table and change list.',
+        exhaustive_note='all change lists of length <=4 (quick) / <=5 (thorough) over add/delete of 3 crossing hashes and a modification, '
+                        'with small blobs (stage 1 and the assembly), enumerated completely',
+        assumptions=[
+            'sort.Sort (Go standard library) returns a permutation of its input in which no later element is Less than an earlier one, '
+            'provided Less is a strict total order on the elements (proved for 20-byte hashes: C13_less_total); Section hypotheses of '
+            'C13_repairing (permutation only) and C13_exact',
+            'blobsAreClose (diffmatchpatch / bsdiff) and sortRenameCandidates (sort.Slice, Levenshtein) are arbitrary functions in every '
+            'theorem; C13_total additionally assumes that sortRenameCandidates only reorders the candidates it is given',
+            'the blob cache holds every hash of an added or deleted file (BlobCache provides it; a miss is a nil dereference outside the '
+            'property) and blob sizes stay below 2^49 bytes (int64 arithmetic of sizesAreClose)',
+            'blobsAreClose never returns an error (it has no error return path in the code): the protocol theorems are about the error-free '
+            'transition system; C13_errs_would_deadlock shows that an error would block the goroutine on the unbuffered errs channel',
+            'correspondence of stage 2: the implementation\'s output must equal the model output for SOME winner and SOME timeout cut '
+            '(all cuts are tried when the timeout is below 1 s, otherwise only the complete run)',
+        ],
+        trusted_base=[
+            'hand-written Gallina model coq/theories/Plumbing/Renames.v of RenameAnalysis.Consume (renames.go), tied to the code by the replay of '
+            'every harness case; matchA and matchB are one Gallina function instantiated twice',
+            'hand-written transition system coq/theories/Plumbing/RenamesChan.v of the channel protocol (finished/finishedA/finishedB/errs, '
+            'WaitGroup, final select): not tied to the code by replay, only by reading',
+            'the OCaml port of Go 1.23 pdqsort in ocaml/c13/driver.ml that supplies the model\'s sort oracles (cross-checked on every case '
+            'against the permutation the real sort.Sort produced; a wrong port can only cause a MISMATCH)',
+        ],
+        level_text='proof (Coq): C13_repairing, C13_exact, C13_less_total, C13_total for every input, similarity predicate, candidate order, '
+                   'timeout cut and winner; C13_no_deadlock / C13_result_available / C13_runs_finite for the channel protocol; partial for '
+                   'data-race freedom',
+        level_note='Proved about the Gallina model, which every harness case ties to the Go code (model output = implementation output for some '
+                   'winner and cut; stage 1 compared exactly). The property oracles that judge the implementation\'s own outputs '
+                   '(repairing_b, exact_b) are extracted from Coq and proved sound (C13_repairing_oracle_sound, C13_exact_oracle_sound). '
+                   'Modelled rather than verified: sort.Sort, sort.Slice+Levenshtein, blobsAreClose (opaque), the Go scheduler and channels '
+                   '(RenamesChan.v is a hand-written transition system). PARTIAL: "without data races" in the sense of the Go memory model '
+                   'cannot be stated in this model; supporting evidence only: the thorough tier runs the harness built with -race '
+                   '(stream c13race) and fails on any report.',
+        technique='executable Gallina model with explicit choice arguments (winner, timeout cuts) and opaque oracles (sorts, similarity, '
+                  'candidate order); permutation / counting proofs; strict-total-order proof for Less with a vm_compute counterexample for the '
+                  'old Less; labelled transition system with a boolean inductive invariant checked by case analysis and a decreasing measure; '
+                  'extraction to OCaml and replay of harness traces; existential matching of nondeterministic outcomes',
     )
